@@ -689,12 +689,18 @@ impl Storage {
     }
 
     pub fn filter_block(&self, block: Block) {
+        let block_number: BlockNumber = block.header().raw().number().unpack();
+        // A script which has been filtered up to a later block has already got this block. When
+        // the block is downloaded again for another script, indexing it once more would insert
+        // cells again which were spent in later blocks, and those blocks will not be downloaded
+        // again for this script. (After a rollback the block number of a script is the first
+        // removed block, so the block with the same number is indexed: nothing is after it yet.)
         let scripts: HashSet<(Script, ScriptType)> = self
             .get_filter_scripts()
             .into_iter()
+            .filter(|ss| ss.block_number <= block_number)
             .map(|ss| (ss.script, ss.script_type))
             .collect();
-        let block_number: BlockNumber = block.header().raw().number().unpack();
         let mut filter_matched = false;
         let mut batch = self.batch();
         let mut txs: HashMap<Byte32, (u32, Transaction)> = HashMap::new();
